@@ -73,7 +73,13 @@ func vC17Run(rd *Readdir, dirs []Dir, maxReads int) {
 	ended := false
 	for r := 0; r < maxReads; r++ {
 		count := cands[ndChoice("count", len(cands))]
-		buf := make([]byte, count)
+		// the caller's buffer is a window of a larger array: nothing beyond the
+		// requested count may be written or reported
+		big := make([]byte, count+40)
+		for i := range big {
+			big[i] = 0xEE
+		}
+		buf := big[:count]
 		// a read at any other offset is rejected (and does not disturb the stream)
 		if r == 1 {
 			wrong := ndI64("wrongoff")
@@ -84,6 +90,9 @@ func vC17Run(rd *Readdir, dirs []Dir, maxReads int) {
 		n, err := rd.Read(vBG, buf, int64(off))
 		vAssert(err == nil, "C17: read at the running offset succeeds")
 		vAssert(n <= count, "C17: at most the requested number of bytes")
+		for i := count; i < len(big); i++ {
+			vAssert(big[i] == 0xEE, "C17: nothing is written beyond the requested count")
+		}
 		chunk := buf[:n]
 		// whole entries only: n is a sum of consecutive entry sizes from the current position
 		vAssert(off+n <= len(ref), "C17: never more than the listing")
@@ -159,3 +168,93 @@ func VerifC17_IterError() {
 		vReach("c17.iterok")
 	}
 }
+
+// ---- client layer: CFileSys OpenDir over a session that clips reads to
+// msize-11 (as the wire does) must deliver exactly the server's entries.
+
+type vListFS struct {
+	vStubFS
+	listing []Dir
+}
+
+type vListRoot struct {
+	*vStubEnt
+	fs *vListFS
+}
+
+func (fs *vListFS) Attach(ctx context.Context, uname, aname string, af AuthFile) (Dirent, error) {
+	return vListRoot{fs.newEnt(true), fs}, nil
+}
+
+func (r vListRoot) OpenDir(ctx context.Context) (ReadNext, error) {
+	sent := false
+	return func(context.Context) ([]Dir, error) {
+		if sent {
+			return nil, nil
+		}
+		sent = true
+		return r.fs.listing, nil
+	}, nil
+}
+
+// vClipSession clips Read to msize-11 and reports msize as its version.
+type vClipSession struct {
+	Session
+	msize int
+}
+
+func (s vClipSession) Read(ctx context.Context, fid Fid, p []byte, offset int64) (int, error) {
+	if len(p) > s.msize-11 {
+		p = p[:s.msize-11]
+	}
+	return s.Session.Read(ctx, fid, p, offset)
+}
+func (s vClipSession) Version() (int, string) { return s.msize, DefaultVersion }
+
+func vC17Client(maxN int, lens []int) {
+	dirs := vC17Listing(maxN, lens)
+	largest, total := 0, 0
+	for _, d := range dirs {
+		n := len(refStat(nil, d))
+		total += n
+		if n > largest {
+			largest = n
+		}
+	}
+	fs := &vListFS{listing: dirs}
+	fs.noFail = true
+	// negotiated msize: every boundary that matters for the read size msize-11
+	cands := []int{largest + 11, largest + 12, total + 10, total + 11, total + 12, 8192}
+	if largest == 0 {
+		cands = []int{24, 8192}
+	}
+	msize := cands[ndChoice("msize", len(cands))]
+	if msize < largest+11 {
+		msize = largest + 11
+	}
+	cfs := CFileSys(vClipSession{SFileSys(fs), msize})
+	root, err := cfs.Attach(vBG, "u", "a", nil)
+	vAssert(err == nil, "C17: attach")
+	next, err := root.OpenDir(vBG)
+	vAssert(err == nil, "C17: opendir through the client layer")
+	var got []Dir
+	for i := 0; i < len(dirs)+2; i++ {
+		batch, err := next(vBG)
+		vAssert(err == nil, "C17: listing through the client layer succeeds")
+		if len(batch) == 0 {
+			break
+		}
+		got = append(got, batch...)
+	}
+	vAssert(len(got) == len(dirs), "C17: the client obtains exactly as many entries as the server listed")
+	for i := range got {
+		if i < len(dirs) {
+			vAssert(vDirEq(got[i], dirs[i]), "C17: the client obtains exactly the server's entries, in order")
+		}
+	}
+	vObserve("n", len(got))
+	vReach("c17.client")
+}
+
+func VerifC17_ClientQuick()    { vC17Client(2, []int{0, 2}) }
+func VerifC17_ClientThorough() { vC17Client(3, []int{0, 1, 3}) }
